@@ -81,7 +81,16 @@ CHECKS["C04"] = (
     "strand = product. Chunk legs: symbolic chunk offset on either strand, lift down and back == intersection with the window, "
     "chunk-to-chunk re-lift; sequence preservation by identity and by type on tagged sequences at depth 2 and 3; missing ancestors refused.",
     _NOTE, "DESIGN.md §3 C04")
-for _p in ["C07", "C08", "C09", "C10", "C11", "C13", "C17",
+CHECKS["C07"] = (
+    _CH,
+    "Twin construction inside each obligation: the same feature/transcript/CDS/gene built without parent, on the whole chromosome and on "
+    "a sequence chunk whose window start is SYMBOLIC: chromosome-level answers (coordinates, blocks, to_dict, guid, codon locations, "
+    "num_codons) are identical; the chunk-relative location lifted back equals the chromosome location inside the window (EmptyLocation "
+    "when disjoint); chunk-relative codons lifted back are exactly the reading-frame model's codons fully inside the window (exon "
+    "lengths/frames driver-enumerated, offsets symbolic; a realised variant covers more length/frame vectors); sequences/translation on "
+    "the chunk equal the in-window stretch; CDS never dropped while the transcript stays coding. F8b excluded by its exact region.",
+    _NOTE, "DESIGN.md §3 C07")
+for _p in [ "C08", "C09", "C10", "C11", "C13", "C17",
            "C19", "C20"]:
     NOT_APPLICABLE[_p] = "check not built yet (build in progress; see DESIGN.md §3 for the planned solver-based check)"
 NOT_APPLICABLE["C12"] = ("GenBank writer cannot emit a feature on the installed Biopython (SeqFeature(strand=) TypeError), the "
